@@ -80,3 +80,11 @@ Definition verdict_c06_merge (c : m2case) : nat :=
          | None => 1
          end
   end.
+
+(* ---- C06 through the command line: `monkeytype stub` on a store whose traces were recorded under limit k, with the
+        configuration reporting k while the command runs.  Every class the stub defines has between 1 and k keys
+        (none at all for k = 0). ---- *)
+Record clicase := CliCase { clk : nat; clcounts : list nat; clcollision : bool }.
+Definition verdict_c06_cli (c : clicase) : nat :=
+  if forallb (fun n => Nat.leb 1 n && Nat.leb n (clk c)) (clcounts c) then 0
+  else if clcollision c then 5 else 2.
